@@ -8,16 +8,16 @@ CHECKS = {
  "C01": dict(technique="reference-interpreter monitor over exhaustive small programs and seeded typed programs (differential, trace-observing)",
              text="Every program in an exhaustively enumerated small grammar and in a seeded family of typed random programs is run on the real EVAL next to an independent reference interpreter; result, error class, ordered trace! effects and final globals must agree. Held on the programs executed, nothing more.",
              note="trusts the harness reference interpreter (refmal) as the reading of the mal guide + README; error message text is not compared", ref="5/C01"),
- "C02": dict(technique="snapshot-invariant monitor after every step of generated operation histories + Go race detector on shared-parent derivations",
+ "C02": dict(technique="snapshot-invariant monitor after every step (successful or failed) of generated operation histories, incl. boundary indices + Go race detector on shared-parent derivations",
              text="After every step of generated histories of collection operations every earlier binding is re-read and compared with the snapshot taken when it was bound; a concurrent part derives from shared parents under -race; values seen through closures (captured before a re-binding let, collected over the iterations of a tail loop) must stay what was captured; a catch variable named like an existing binding must not overwrite it.",
              note="canonical comparison by the harness value model; race detector sees only executed interleavings", ref="5/C02"),
  "C03": dict(technique="reference-model monitor for try/catch/finally with identity checks on thrown values and Go errors",
              text="Generated nests of try/catch/finally with non-self-evaluating thrown objects, Go errors returned or panicked by harness builtins; result/error/trace compared with the reference interpreter, errors.Is and ErrorValue checked from Go; thrown objects include nil/false/empty values; builtins registered as plain Go function values fail and panic (also with Go runtime errors) inside try bodies.",
              note="trusts refmal's try semantics written from the property statement", ref="5/C03"),
- "C04": dict(technique="crash sentinel (recover + child-process death attribution) over enumerated malformed ASTs and builtin x argument tuples, live and cancelled contexts",
+ "C04": dict(technique="crash sentinel (recover + child-process death attribution) over enumerated malformed ASTs and builtin x argument tuples (incl. JSON/source strings, zero-value collections), live and cancelled contexts",
              text="Every enumerated malformed special form, builtin call tuple and Go-built AST is evaluated under recover() in a child process, directly, wrapped in try/catch, inside a future and under an already cancelled context; any escaping panic is a violation; function values of 26 provenances (with-meta, reader metadata, eval-built, held in atoms/maps, builtins) are applied in 51 ways (direct, apply, map, swap!, reduce, defmacro+call, macroexpand, future-call, memoize, partial, comp, threading, update).",
              note="recursion bounded by construction; builtins with external effects (readline, slurp of devices, setenv) excluded", ref="5/C04"),
- "C05": dict(technique="crash/hang sentinel over exhaustive token soups, truncated repository sources and hostile random texts through 9 reader entry points, plus Go's coverage-guided fuzzer on the same entry points",
+ "C05": dict(technique="crash/hang sentinel over exhaustive token soups, truncated repository sources and hostile random texts through 9 reader entry points, concurrent first readings of fresh names (8 goroutines, compared with reading alone), plus Go's coverage-guided fuzzer on the same entry points",
              text="All token sequences up to a length bound, every truncation of windows of the repository's lisp sources, and seeded hostile texts go through READ/READWithPreamble/Read_str/read-string and PRINT under recover() and a watchdog.",
              note="inputs bounded in size and nesting; hang = no return within 10 s and, run again, within 30 s", ref="5/C05"),
  "C06": dict(technique="relational round-trip monitor with an independent structural comparison (exhaustive short strings + seeded values and accepted texts + coverage-guided fuzzing of strings)",
@@ -26,7 +26,7 @@ CHECKS = {
  "C07": dict(technique="tick-history monitor: cancellation issued from inside the k-th tick!, zero later ticks allowed; bounded wall clock with load canary for blocking builtins",
              text="Looping/recursing/macro-expanding/sleeping/deref-ing programs inside try/catch/finally nests are cancelled at logical instants; the evaluating thread must start no further tick and EVAL must return a timeout error; blocking builtins (also while an earlier evaluation with a longer-lived context waits on the same future or atom) must return within a generous wall bound while the canary is quiet; under natural deadlines the innermost handler of nested tries must produce the value (a missed handler is re-examined with 4x and 16x the deadline).",
              note="logical oracle is exact; wall-clock part uses a 5 s bound against a normal of milliseconds and is discarded when the load canary is late", ref="5/C07"),
- "C08": dict(technique="host-stack-depth invariant monitor (runtime.Callers at the base case for n=3,30,300,3000) + 10^6-iteration runs under a reduced stack cap in child processes",
+ "C08": dict(technique="host-stack-depth invariant monitor (runtime.Callers at the base case for n=3,30,300,3000; also after a stepper was attached, consulted and detached) + 10^6-iteration runs under a reduced stack cap in child processes",
              text="For generated nests of tail-position constructs the Go stack depth seen by a harness builtin must be identical for every iteration count; long loops must complete under a 4 MiB stack cap; loops run under background, deadline and derived contexts; functions may be built by macros, eval or read-string.",
              note="depth measured in frames by runtime.Callers", ref="5/C08"),
  "C09": dict(technique="linearizability checking (porcupine) of client-boundary histories + Go race detector + parked-hook lost-update scenarios + bounded-progress watchdog",
@@ -35,22 +35,22 @@ CHECKS = {
  "C10": dict(technique="rule-based history checker (R1-R8) over recorded future histories + parked-hook windows + Go race detector",
              text="Histories of deref/done?/cancelled?/cancel against bodies that complete, throw, sleep or ignore cancellation are recorded with timestamps and checked against eight rules; the narrow publication windows are made certain by parking goroutines at hook sites; futures whose creating evaluation context is ended after completion; chains of up to 1000 nested futures; two simultaneous cancels of a running future with hundreds of derived contexts.",
              note="real-time order from one monotonic clock at the client boundary", ref="5/C10"),
- "C11": dict(technique="solo-vs-concurrent relational monitor + Go race detector + atomicity readers on one shared environment",
+ "C11": dict(technique="solo-vs-concurrent relational monitor + Go race detector (incl. futures created in nested scopes of scopes still being written, read-string of fresh names) + atomicity readers on one shared environment",
              text="Generated programs run simultaneously on one preloaded environment under -race; each result must equal its solo result, readers must see globals unbound or complete, locals must never carry another thread's tag; call-local defs must not reach the shared environment; a shared memoized function and 16 simultaneous deep recursions must give their solo results.",
              note="gensym numbering canonicalised", ref="5/C11"),
  "C12": dict(technique="template-substitution model for quasiquote + call/macroexpand relational monitor with trace observation",
              text="Generated templates are evaluated and compared with a substitution computed by the generator; generated macros are called and compared with the evaluation of their macroexpand result (value and trace); library macros are compared with their documented meaning; call sites evaluated repeatedly, stateful expanders, nested quasiquote heads as data, try bodies ending in a macro call.",
              note="substitution model is harness code", ref="5/C12"),
- "C13": dict(technique="reference-model monitor (independent sequence/map/set model) over boundary-value argument tuples and random pipelines",
+ "C13": dict(technique="reference-model monitor (independent sequence/map/set model, with forbidden results for unspecified calls) over boundary-value argument tuples (empty collections by origin) and random pipelines",
              text="Every listed builtin is called on exhaustive boundary tuples and in random pipelines; value/kind must match the model where it prescribes a value, an error must be returned where the statement prescribes one (duplicate keys in hash-map included).",
-             note="model rules in DESIGN.md Appendix A; Unspecified cells accept any non-panicking outcome", ref="5/C13"),
+             note="model rules in DESIGN.md Appendix A; Unspecified cells accept any non-panicking outcome except results listed as wrong under every reading", ref="5/C13"),
  "C14": dict(technique="independent structural comparison + reflexivity/symmetry/transitivity monitors over an exhaustive small universe and mutated deep pairs",
              text="(= a b) through EVAL is compared with the harness's own structural equality for all pairs of an exhaustive universe of small values, triples for transitivity, and random deep pairs built by mutation and by different construction paths (metadata-carrying ones included).",
              note="canon.LispEqual is the oracle", ref="5/C14"),
  "C15": dict(technique="substitution-model monitor: generator-side AST substitution vs READWithPreamble(AddPreamble(src,m)) vs Read_str(src,m)",
              text="Generated sources with placeholders and decoys and generated value maps are transported through AddPreamble/READWithPreamble and compared with an independent substitution done on the generator's AST; placeholders also in hash-map key position, names reused from earlier cases without a value, the name MODULE.",
              note="names over [A-Za-z0-9_-]; values are data", ref="5/C15"),
- "C16": dict(technique="bracket-stack model monitor using the REPL's own classifier through a verif-tagged export",
+ "C16": dict(technique="bracket-stack model monitor using the REPL's own classifier through a verif-tagged export + history-independence relation over grown texts (prefixes read in growing order vs read after an unrelated text)",
              text="Every cut point of generated well-formed expressions is classified by a harness stack machine; READ must report the distinguished EOF error naming the innermost closer exactly when the prefix is completable by closers; surplus/mismatched closers and multiple expressions must be rejected with a non-multiline error; six goroutines reading pooled texts concurrently must each get what the text gives alone; the real REPL loop (repl.Execute) is driven with typed multi-line entries with comments on inner lines and must print exactly one correct result per entry.",
              note="uses repl.VerifMultiLine (hook) so that the REPL's own classification is observed", ref="5/C16"),
  "C17": dict(technique="position monitor against generator-known line numbers of planted faults",
@@ -62,7 +62,7 @@ CHECKS = {
  "C19": dict(technique="multi-route relational monitor (text with/without module, position-less AST, re-read print, REPL form by form, do-wrapped, load-file) over layout variants",
              text="The same generated program is delivered through seven routes and several layouts; result, error class, final error text (positions removed) and trace must agree across all of them.",
              note="program value observed through a final trace! on routes whose return value is defined differently", ref="5/C19"),
- "C20": dict(technique="exhaustive contract table with entry monitors on harness-defined Go functions bound through lib/call",
+ "C20": dict(technique="exhaustive contract table with entry monitors on harness-defined Go functions bound through lib/call (10 behaviours incl. five Go runtime panic kinds whose recovered value must stay reachable with errors.Is)",
              text="An enumerated table of signatures x declared bounds x entry points x import-path shapes x argument lists is executed; entry monitors record whether and with what the Go function was entered; results, errors and panics are compared with the contract; function values sharing their code (closures of one literal, method values of one method) registered under one name in several environments must each be the one invoked; four goroutines calling one binding concurrently must each see their own arguments and context.",
              note="signatures written out in the harness; declarations the binder rejects by design are excluded", ref="5/C20"),
 }
